@@ -421,14 +421,19 @@ impl<'a> Sim<'a> {
         let tick = self.config.tick;
         let mut is_finished = true;
 
+        // The first software error seen in this step. It is handed back once
+        // the step is complete, so that a failing step moves every clock
+        // forward just like any other step.
+        let mut first_error = None;
+
         // Tick the networking, processing messages. This is done before
         // ticking any other runtime, as they might be waiting on network
         // IO. (It also might be waiting on something else, such as time.)
         self.world.borrow_mut().topology.tick_by(tick);
 
         // Tick each host runtimes with running software. If the software
-        // completes, extract the result and return early if an error is
-        // encountered.
+        // completes, extract the result; an error is reported at the end of
+        // the step.
 
         let (mut running, stopped): (Vec<_>, Vec<_>) = self
             .rts
@@ -476,7 +481,7 @@ impl<'a> Sim<'a> {
                 Arc::clone(&host.io_uring)
             };
 
-            let is_software_finished = World::enter(&self.world, || {
+            let tick_result = World::enter(&self.world, || {
                 #[cfg(feature = "unstable-fs")]
                 let _fs_guard = turmoil_fs::enter(
                     &fs_arc,
@@ -494,7 +499,17 @@ impl<'a> Sim<'a> {
                     turmoil_io_uring::host::EnterCtx { now },
                 );
                 rt.tick(tick)
-            })?;
+            });
+
+            let is_software_finished = match tick_result {
+                Ok(finished) => finished,
+                Err(e) => {
+                    // The software is gone (its handle was consumed), the
+                    // rest of the step still takes place.
+                    first_error.get_or_insert(e);
+                    true
+                }
+            };
 
             if rt.is_client() {
                 is_finished = is_finished && is_software_finished;
@@ -516,6 +531,10 @@ impl<'a> Sim<'a> {
 
         self.elapsed += tick;
         self.steps += 1;
+
+        if let Some(e) = first_error {
+            return Err(e);
+        }
 
         if self.elapsed > self.config.duration && !is_finished {
             return Err(format!(
